@@ -2,6 +2,7 @@ package main
 
 import (
 	"fmt"
+	"regexp"
 	"go/ast"
 	"go/token"
 	"go/types"
@@ -568,6 +569,14 @@ func (e *Enc) run() {
 		entry.m["ghost:sitehit"] = False
 		e.entry.m["ghost:sitehit"] = False
 	}
+	// ghost "called(name)" flags mentioned by the contract start out false
+	for _, n := range e.calledNames() {
+		k := "ghost:called:" + n
+		e.keySorts[k] = SBool
+		e.universe[k] = true
+		entry.m[k] = False
+		e.entry.m[k] = False
+	}
 	fr.curState = entry
 	fr.curReach = True
 	// preconditions
@@ -745,4 +754,42 @@ func (eng *Engine) constGlobal(g *ssa.Global) *ssa.Const {
 		eng.constGlobals[g] = initVal
 	}
 	return eng.constGlobals[g]
+}
+
+var calledRe = regexp.MustCompile(`called\(([A-Za-z0-9_]+)\)`)
+
+// calledNames: callee names used in called(...) anywhere in the function's contract.
+func (e *Enc) calledNames() []string {
+	if e.fc == nil {
+		return nil
+	}
+	seen := map[string]bool{}
+	var out []string
+	add := func(text string) {
+		for _, m := range calledRe.FindAllStringSubmatch(text, -1) {
+			if !seen[m[1]] {
+				seen[m[1]] = true
+				out = append(out, m[1])
+			}
+		}
+	}
+	for _, c := range e.fc.Ensures {
+		add(c.Text)
+	}
+	for _, st := range e.fc.Sites {
+		add(st.Assert.Text)
+	}
+	for _, l := range e.fc.Lets {
+		add(l.Expr.Text)
+	}
+	for _, la := range e.fc.Loops {
+		for _, c := range la.Invariants {
+			add(c.Text)
+		}
+		for _, c := range la.Steps {
+			add(c.Text)
+		}
+	}
+	sort.Strings(out)
+	return out
 }
